@@ -117,6 +117,9 @@ func (r *Reader) readBlock() error {
 func (r *Reader) Read(p []byte) (n int, err error) {
 	if r.pos >= int64(len(r.data)) {
 		if err := r.readBlock(); err != nil {
+			// Drop buffer of the rejected block, so the next Read
+			// will not return it as decompressed data.
+			r.data = r.data[:0]
 			return 0, errors.Wrap(err, "read next block")
 		}
 	}
